@@ -53,6 +53,8 @@ def corpus():
         # F61 (repaired): the items handler used to be registered only if the FIRST partner of the trait was a
         # List trait; the oracle reports `sync-diverged:items-handler-not-registered` if that returns
         "#hook|first-partner-not-a-list",
+        # known finding: an Any partner holding the sender's own list object makes the items handler recurse
+        "#any|partner-shares-list-object",
         # the same inside the model (the first, cross-kind link raises but stays registered)
         "sy|int:int:int:int,int:int:int:int,int:int:int:int|li 0 l 1 x 0;li 0 l 2 l 1;mu 0 l ap 1;mu 2 l ap 5",
         # ... after a removal that must also unregister the items handler, and mixed removals: the handler stays
@@ -67,7 +69,7 @@ def corpus():
 
 def generate(rng, tier):
     if tier == "quick":
-        n, ngc = 2000, 0
+        n, ngc = 1800, 40
     elif tier == "thorough":
         n, ngc = 40000, 3000
     else:
@@ -159,9 +161,31 @@ def _digit(n):
     return str(min(n, 9))
 
 
-def _show_obj(o, rec):
+class _Unborn:
+    """Place of an object of the case that has not been created yet: objects are created when a command first
+    addresses them, and the next one right after a partner was collected (so that it is likely to get the
+    address, hence the id(), of the dead one, as in `del b; c = B()`)."""
+
+
+UNBORN = _Unborn()
+
+
+def _live(o):
+    return o is not None and o is not UNBORN
+
+
+def _dead_entries(o):
+    """White box: entries of the partner tables whose partner has been garbage-collected."""
+    t = o.__dict__.get("__sync_trait__") or {}
+    return [(name, alias) for name, dic in t.items() if name != "" for (ref, alias) in dic.values() if ref() is None]
+
+
+def _show_obj(o, rec, spec=None):
     if o is None:
         return "dead"
+    if o is UNBORN:
+        d = ["s0" if k == "str" else "0" for k in spec[:2]]
+        return "x=%s,y=%s,l=[],m=[],c=000000,k=-" % (d[0], d[1])
     st = _state(o)
     c = "".join(_digit(len(rec[k])) for k in ("x", "y", "l", "m", "l_items", "m_items"))
     lk = _locks(o)
@@ -215,13 +239,13 @@ def _py_replay(snap, events):
 def run_impl(case):
     if case.startswith("#hook"):
         return _run_hook_case()
+    if case.startswith("#any"):
+        return _run_shared_list_case()
     from traits.api import push_exception_handler, pop_exception_handler
     _, specs, cmds = L.parse_case(case)
-    objs = [L.make_class(s)() for s in specs]
+    objs = [UNBORN for _ in specs]
     recs = [{k: [] for k in L.NAMES + tuple(n + "_items" for n in L.LISTS)} for _ in objs]
     guard = _Guard()
-    for i in range(len(objs)):
-        _attach(objs[i], recs[i], guard)
     swallowed = []
     push_exception_handler(lambda obj, name, old, new: swallowed.append(S.exc_name(sys.exc_info()[1])),
                            reraise_exceptions=False, main=True)
@@ -244,7 +268,13 @@ def _run(specs, cmds, objs, recs, swallowed, guard):
     crossed = set()    # traits that ever were one end of a List / non-List link (finding F61 stays with them)
     tainted = False    # a divergence was already reported: later differences are consequences
     tags.add("objs:%d" % len(objs))
-    for cmd in cmds:
+
+    def born(i):
+        if objs[i] is UNBORN:
+            objs[i] = L.make_class(specs[i])()
+            _attach(objs[i], recs[i], guard)
+
+    for ci, cmd in enumerate(cmds):
         k = cmd[0]
         tags.add(k)
         for r in recs:
@@ -253,10 +283,14 @@ def _run(specs, cmds, objs, recs, swallowed, guard):
         del swallowed[:]
         guard.reset()
         guard.tripped = False
-        alive = [i for i, o in enumerate(objs) if o is not None]
-        if k != "ki" and (cmd[1] not in alive or (k in ("li", "un") and cmd[3] not in alive)):
+        if k != "ki" and (objs[cmd[1]] is None or (k in ("li", "un") and objs[cmd[3]] is None)):
             outs.append("skip")
             continue
+        if k != "ki":
+            born(cmd[1])
+            if k in ("li", "un"):
+                born(cmd[3])
+        alive = [i for i, o in enumerate(objs) if _live(o)]
         before = {i: _state(objs[i]) for i in alive}
         exc = None
         ret = None
@@ -271,22 +305,40 @@ def _run(specs, cmds, objs, recs, swallowed, guard):
                 objs[cmd[1]].sync_trait(cmd[2], objs[cmd[3]], cmd[4], mutual=bool(cmd[5]), remove=True)
             elif k == "ki":
                 i = cmd[1]
-                if objs[i] is not None:
+                if objs[i] is UNBORN:
+                    objs[i] = None
+                elif objs[i] is not None:
                     wr = weakref.ref(objs[i])
+                    old_id = id(objs[i])
                     objs[i] = None
                     gc.collect()
                     if wr() is not None:
                         hits.append(_hit("sync-partner-kept-alive", "object survives del + gc.collect() although the "
                                          "harness holds no reference: a synchronisation table keeps it alive"))
                     killed = True
+                    # white box, at once: no table may still list the dead partner
+                    left = [(j, _dead_entries(objs[j])) for j in range(len(objs))
+                            if _live(objs[j]) and _dead_entries(objs[j])]
+                    if left:
+                        hits.append(_hit("sync-dead-partner-in-table", "a partner table still lists a garbage-collected "
+                                         "partner after its death (its (id, alias) key can be taken for a new object "
+                                         "allocated at the same address)", entries=left, command=cmd))
+                    # the fresh partner the history uses next is created now: `del b; c = B()` usually reuses
+                    # the address
+                    nxt = [j for c2 in cmds[ci + 1:] if c2[0] != "ki" for j in ([c2[1]] + ([c2[3]] if c2[0] in ("li", "un") else []))
+                           if objs[j] is UNBORN]
+                    if nxt:
+                        born(nxt[0])
+                        if id(objs[nxt[0]]) == old_id:
+                            tags.add("id-reused")
         except Exception as e:
             exc = e
-        alive2 = [i for i, o in enumerate(objs) if o is not None]
+        alive2 = [i for i, o in enumerate(objs) if _live(o)]
         after = {i: _state(objs[i]) for i in alive2}
         res = "ok" if exc is None else "err:" + S.exc_name(exc)
         if exc is None and ret is not None:
             res = "ok=%s" % L.show_scalar(ret)
-        outs.append("%s r%d %s" % (res, len(swallowed), " ".join(_show_obj(o, r) for o, r in zip(objs, recs))))
+        outs.append("%s r%d %s" % (res, len(swallowed), " ".join(_show_obj(o, r, sp) for o, r, sp in zip(objs, recs, specs))))
         if exc is not None:
             tags.add("err:" + S.exc_name(exc))
 
@@ -555,6 +607,38 @@ def _run_hook_case():
                          "a.l <-> c.l linked mutually, but a.l's first partner was not a List trait: "
                          "a.l.append(1) does not reach c.l", no_shrink=True, a=list(a.l), c=list(c.l)))
     return out, hits, ["hook-case"]
+
+
+def _run_shared_list_case():
+    """Known finding (impl + oracle only; the Any trait is outside the model): a List trait with a List partner
+    and, one-way, an Any partner.  The Any trait holds the very list object of the sender, so applying the delta
+    to it changes the sender's list again, which notifies the sender's items handler again ... : unbounded
+    recursion ended by RecursionError, the item inserted ~100 times, KeyErrors from `del locked[name]`."""
+    from traits.api import HasTraits, List, Int, Any, push_exception_handler, pop_exception_handler
+
+    class O(HasTraits):
+        l = List(Int)
+        z = Any
+
+    swallowed = []
+    push_exception_handler(lambda obj, name, old, new: swallowed.append(S.exc_name(sys.exc_info()[1])),
+                           reraise_exceptions=False, main=True)
+    try:
+        a, b, c = O(), O(), O()
+        a.sync_trait("l", b, mutual=False)
+        a.sync_trait("l", c, "z", mutual=False)
+        shared = c.z is a.l
+        a.l.append(4)
+        la, lb = len(a.l), len(b.l)
+    finally:
+        pop_exception_handler()
+    hits = []
+    if la != 1 or lb != 1 or swallowed:
+        hits.append(_hit("sync-runaway-propagation:partner-shares-list-object",
+                         "a.l synchronised one-way with b.l and with the Any trait c.z (c.z is a.l: %s): a.l.append(4) "
+                         "left %d items in a.l, %d in b.l, %d exceptions swallowed (%s)" % (
+                             shared, la, lb, len(swallowed), sorted(set(swallowed))), no_shrink=True))
+    return "a=%d b=%d swallowed=%d" % (min(la, 2), min(lb, 2), min(len(swallowed), 1)), hits, ["any-case"]
 
 
 def nontrivial(case, out):
